@@ -194,6 +194,20 @@ func resolveQueueFields(P *Prog) (vs, head, n *types.Var) {
 		})
 	}
 	if n == nil {
+		// … or the integer field the container's own Len method returns
+		if lf := P.Func("queue", "Queue", "Len"); lf != nil && len(lf.Blocks) == 1 {
+			if ret, ok := lf.Blocks[0].Instrs[len(lf.Blocks[0].Instrs)-1].(*ssa.Return); ok && len(ret.Results) == 1 {
+				if _, f := loadedField(ret.Results[0]); f != nil {
+					for _, cand := range ints {
+						if sameField(cand, f) {
+							n = cand
+						}
+					}
+				}
+			}
+		}
+	}
+	if n == nil {
 		return nil, nil, nil
 	}
 	for _, cand := range ints {
